@@ -133,9 +133,14 @@ def run(ctx):
         size = int(np.prod(shp))
         ctx.case(key=('rot', shp, scale, kseed), nontrivial=(size & (size - 1)) != 0 or len(shp) != 1)
         nrot += 1
+        # "for all keys": also under JAX's other key-to-bits scheme (the draws for a shorter shape are then not a prefix
+        # of the draws for a longer one), on the last key of every shape/scale
+        other_scheme = kseed == (8 if big else 5) - 1
+        cfg['threefry_partitionable'] = not other_scheme
         try:
-          rot, oshape = wh.structured_rotation(jnp.array(x), key)
-          back = wh.inverse_structured_rotation(rot, key, oshape)
+          with jax.threefry_partitionable(not other_scheme):
+            rot, oshape = wh.structured_rotation(jnp.array(x), key)
+            back = wh.inverse_structured_rotation(rot, key, oshape)
         except Exception as ex:  # pylint: disable=broad-except
           ctx.violation(f'rotation:exception:{type(ex).__name__}', f'{type(ex).__name__}: {str(ex)[:160]} for {cfg}', replay={'cfg': cfg})
           continue
